@@ -333,6 +333,16 @@ def key_fn(ctx):
                 else: good = dv == CK.index('Results') and origin(d, d.heap[r.oid][('f', 'Results', 0)]) == 'to_list(ctx)'
             if good: fam.discharged += 1
             else:
-                c_ = Candidate(fam.name, f'key-{n_res}', f'Context::key with {n_res} selections is wrong ({d.status})', {'n_res': n_res}, unmodelled=(d.havoc or [None])[0]); c_.status = 'unit' if not c_.unmodelled else 'inconclusive'
-                fam.candidates.append(c_)
+                c_ = Candidate(fam.name, f'key-{n_res}', f'Context::key with {n_res} selections is wrong ({d.status})', {'n_res': n_res}, unmodelled=(d.havoc or [None])[0])
+                if not any(x.role == c_.role for x in fam.candidates): fam.candidates.append(c_)
     run.absorb(ex)
+    from .cli import run_jawk, show
+    DEMOS = [(['--unique', '--select', '.a=a'], '{"a":null} {} {"a":null} {}', 2), (['--unique', '--select', '.a=a'], '{"a":1,"b":2} {"a":1,"b":3} {"a":2}', 2),
+             (['--unique'], '1 1 2 [1] [1] {"a":null} {}', 5), (['--unique', '--select', '.a=a', '--select', '.b=b'], '{"a":1} {"b":1} {"a":1} {"a":null} {"a":null,"b":null} {}', 5)]
+    for c_ in fam.candidates:
+        c_.status = 'unit'
+        for argv, stdin, nrows in DEMOS:
+            r = run_jawk(ctx, argv + ['--style', 'consise'], stdin.encode())
+            got = len([l for l in show(r['stdout']).splitlines() if l.strip()])
+            c_.replay = {'argv': argv, 'stdin': stdin, 'expected_rows': nrows, 'actual_rows': got, 'stdout': show(r['stdout'])}
+            if got != nrows: c_.status = 'reproduced'; break
